@@ -1,4 +1,5 @@
 import CwPlus.Props.C07
+import CwPlus.Props.C17
 /-!
 # C16 — cw1: CanExecute predicts Execute
 
@@ -113,6 +114,33 @@ theorem Sk.canExecute_true_sound (s : Cw1Subkeys.State) (blk : Block) (snd : Add
       rw [he] at h; cases h
     · exact ((Sk.canExecute_invalid_sender s blk snd m hv).1 ha).2
   · exact (Sk.canExecute_iff_execute_ok s blk snd m hv).mp h
+
+theorem covers_no_grants (blk : Block) (m : CosmosMsg) : covers none blk none m = none := by
+  cases m <;> rfl
+
+/-- C16 (subkeys) on reachable states, for *every* sender string: if grants are stored under validated addresses
+only (`C17.Sk.grant_keys_valid`: true after every history from instantiation) and the sender string is either
+valid or not a well-formed address, then `CanExecute = true` exactly when `Execute{[msg]}` succeeds. -/
+theorem Sk.canExecute_iff_reachable {V : String → Prop} {s : Cw1Subkeys.State} (hk : C17.KeysOk V s)
+    (blk : Block) (snd : AddrArg) (m : CosmosMsg) (hsnd : snd.valid = false → ¬ V snd.text) :
+    Cw1Subkeys.queryCanExecute s blk snd m = .ok true ↔
+      (Cw1Subkeys.execute s blk snd.text (.execute [m])).isOk = true := by
+  cases hv : snd.valid
+  · refine ⟨Sk.canExecute_true_sound s blk snd m, fun h => ?_⟩
+    rw [C07.Sk.execute_ok_iff] at h
+    rcases h with ha | hc
+    · exact ((Sk.canExecute_invalid_sender s blk snd m hv).1 ha).1
+    · exfalso
+      have h1 : s.allowances.get? snd.text = none := by
+        cases hg : s.allowances.get? snd.text with
+        | none => rfl
+        | some a => exact absurd (hk.1 snd.text (by rw [hg]; simp)) (hsnd hv)
+      have h2 : s.permissions.get? snd.text = none := by
+        cases hg : s.permissions.get? snd.text with
+        | none => rfl
+        | some a => exact absurd (hk.2 snd.text (by rw [hg]; simp)) (hsnd hv)
+      simp [coveredSeq, coveredFrom, h1, h2, covers_no_grants] at hc
+  · exact Sk.canExecute_iff_execute_ok s blk snd m hv
 
 /-! ## non-vacuity -/
 
